@@ -140,7 +140,7 @@ register("C08",
          "the code's `_is_measure_derivable`, REGENERATED from preagg_matcher.py on every run, admits a metric only without own filters, listed in the rollup, with sum/count/min/max, or avg with a count measure (C08_derivable_sound); "
          "witnesses show why median/stddev, filtered measures, AVG-stored-as-AVG and raw-timestamp filters must not be routed. Tied to the code by executing generated rollups/queries: compile(use_preaggregations=True) vs False on a database whose "
          "rollups were built with the layer's own statement, every routing decision audited against the Coq criterion `exactly_derivable`, and Model/Preagg evaluated in Coq against the routed rows. "
-         "Partial: the routing decision procedure (can_satisfy_query, filter-column extraction, scoring) is audited on generated cases, not modelled; known-finding classes K3 (avg), K6 (raw time filter). Regenerated on every run: the verdicts of can_satisfy_query on 1920 scripted scenarios; C08_matcher_table (model == code) and C08_matcher_sound (an admitted query only uses rollup columns, derivable metrics and a passed granularity test). Also regenerated: what _try_use_preaggregation asks the matcher and re-checks on 814 scripted scenarios (C08_route_table); C08_all_granularities: for ANY routed query every requested granularity is the one the matcher was asked about or one the matched rollup serves (the proof-side form of the repair cad981a); C08_route_asks. C08_routed_granularities_exact composes the regenerated links (_try_use_preaggregation -> can_satisfy_query -> _is_granularity_compatible -> calendar truncation): for a routed query every requested granularity of every timestamp is computed exactly from the rollup's bucket.",
+         "Partial: the routing decision procedure (can_satisfy_query, filter-column extraction, scoring) is audited on generated cases, not modelled; known-finding classes K3 (avg), K6 (raw time filter). Regenerated on every run: the verdicts of can_satisfy_query on 1920 scripted scenarios; C08_matcher_table (model == code) and C08_matcher_sound (an admitted query only uses rollup columns, derivable metrics and a passed granularity test). Also regenerated: what _try_use_preaggregation asks the matcher and re-checks on 814 scripted scenarios (C08_route_table); C08_all_granularities: for ANY routed query every requested granularity is the one the matcher was asked about or one the matched rollup serves (the proof-side form of the repair cad981a); C08_route_asks. C08_routed_granularities_exact composes the regenerated links (_try_use_preaggregation -> can_satisfy_query -> _is_granularity_compatible -> calendar truncation): for a routed query every requested granularity of every timestamp is computed exactly from the rollup's bucket. The routed statement itself is regenerated too (_generate_from_preaggregation on 198 scripted queries): C08_routed_statement_table, C08_routed_dimension_items, C08_routed_count_never_null.",
          "Trusted: translator/pyinterp.py + gen_satisfy.py (fail-closed, validated against CPython each run); Coq kernel; gen_derivable / gen_grancompat translators (fail-closed, validated each run); Model/Preagg.v hand-written (one coded dimension and non-NULL integer values stand for the dimension tuple / measure values), tied by differential testing; DuckDB as oracle. No axioms.",
          "Coq proof (regrouping of decomposable aggregates over a partition, semilattice fold for min/max, calendar nesting) over a hand-written rollup model + translator-regenerated derivability; routed-vs-unrouted execution and decision audit; translator-regenerated matcher verdict table", "DESIGN.md section 6/C08")
 
